@@ -6,6 +6,7 @@ import (
 	"fmt"
 	"go/token"
 	"go/types"
+	"strings"
 
 	"golang.org/x/tools/go/ssa"
 )
@@ -17,13 +18,14 @@ func init() {
 			"(R2) in the handler loop a user pop happens only after the system queue was observed empty, from entry and between any two user pops; " +
 			"(R3) every OnKill / restart message is told with system flag = !Poison and the restart path forwards Poison unchanged; " +
 			"(R4) Unstash re-enqueues stash[0..k) by an ascending traversal and removes exactly that prefix; (R5) the order of the queue is the order of processing because exactly one elected consumer pops and hands each popped value over synchronously (C01.R1/R5). " +
-			"(R6) the stash is assigned only by Stash and Unstash (or by a function that first hands every element on): nothing else can drop or reorder stashed messages. NOT decided: order preservation of the ring's index arithmetic across growth (needs arithmetic reasoning over head/tail/mod), FIFO under concurrent senders (follows from R1 + mutual exclusion, not proved).",
+			"(R6) the stash is assigned only by Stash and Unstash (or by a function that first hands every element on): nothing else can drop or reorder stashed messages. (R7) whatever the context installs as its current envelope is the received envelope or a fresh allocation, never reused storage, so an envelope kept by Stash is not overwritten later; (R4, addition) the array is released only under restored count == length taken before the prefix was cut (or remaining length == 0). NOT decided: order preservation of the ring's index arithmetic across growth (needs arithmetic reasoning over head/tail/mod), FIFO under concurrent senders (follows from R1 + mutual exclusion, not proved).",
 		Assumptions: []string{"a lock is identified by its struct field (instance-insensitive)", "sync.Mutex gives mutual exclusion"},
 		Rules: []Rule{
 			{ID: "C02.R1", Min: 20, Desc: "ring storage and indices only under the queue lock; length atomic+locked", Fn: c02Ring},
 			{ID: "C02.R2", Min: 1, Desc: "system queue observed empty before every user pop", Fn: c02SystemFirst},
 			{ID: "C02.R3", Min: 3, Desc: "kill/poison: system flag = !Poison at every tell of OnKill / restart message", Fn: c02Poison},
 			{ID: "C02.R4", Min: 2, Desc: "Unstash: ascending prefix traversal, same prefix removed", Fn: c02Unstash},
+			{ID: "C02.R7", Min: 2, Desc: "the current envelope is the received one or a freshly allocated one — never reused storage — so an envelope kept by Stash is not overwritten later", Fn: c02EnvelopeFresh},
 			{ID: "C02.R6", Min: 3, Desc: "the stash is written only by Stash and Unstash", Fn: c02StashWriters},
 			{ID: "C02.R5", Min: 6, Desc: "a single consumer pops and hands over in pop order (C01.R1/R5): two consumers would reorder", Fn: func(p *Program, r *Report) { c01Election(p, r); c01Handoff(p, r) }},
 		},
@@ -659,8 +661,46 @@ func c02Unstash(p *Program, r *Report) {
 		if !isNilConst(st.Val) {
 			continue
 		}
-		eq := g.edgesWhere(func(f cmpFact) bool { return f.Y != nil && f.Op == token.EQL })
-		r.Check(len(eq) > 0 && g.DominatedByEdges(s, eq), "Unstash releases the array only when empty", st.Pos(), "stash = nil is stored only under an equality guard (restored count == stash length)")
+		// "everything was restored": restored count == the length the stash had BEFORE the prefix was cut off, or the length
+		// AFTER the cut == 0. Comparing the count with the length after the cut releases the array — and the remaining
+		// messages with it — exactly when as many messages remain as were restored.
+		afterCut := map[int]bool{}
+		for s2 := range stores {
+			if st2 := g.Nodes[s2].(*ssa.Store); !isNilConst(st2.Val) {
+				for n := range g.ReachAfter(s2, nil, nil) {
+					afterCut[n] = true
+				}
+			}
+		}
+		lenOfStash := func(v ssa.Value) (isLen bool, after bool) {
+			c, ok := strip(v).(*ssa.Call)
+			if !ok {
+				return false, false
+			}
+			b, ok := c.Call.Value.(*ssa.Builtin)
+			if !ok || b.Name() != "len" || !isStashLoad(c.Call.Args[0]) {
+				return false, false
+			}
+			ld, _ := c.Call.Args[0].(ssa.Instruction)
+			return true, ld != nil && afterCut[g.Idx[ld]]
+		}
+		eq := g.edgesWhere(func(f cmpFact) bool {
+			if f.Op != token.EQL {
+				return false
+			}
+			if f.Y == nil {
+				// len(stash after the cut) == 0
+				isLen, after := lenOfStash(f.X)
+				return isLen && after && !f.IsNil && !f.Bool && f.C == 0
+			}
+			for _, side := range []ssa.Value{f.X, f.Y} {
+				if isLen, after := lenOfStash(side); isLen && after {
+					return false // the length after the cut compared with the count
+				}
+			}
+			return true
+		})
+		r.Check(len(eq) > 0 && g.DominatedByEdges(s, eq), "Unstash releases the array only when empty", st.Pos(), "stash = nil is stored only under an equality guard restored count == stash length taken before the prefix was removed (or remaining length == 0)")
 	}
 }
 
@@ -731,5 +771,53 @@ func c02StashWriters(p *Program, r *Report) {
 	}
 	if n == 0 {
 		r.Unresolved("no store to the stash field")
+	}
+}
+
+// c02EnvelopeFresh: Stash keeps the context's current envelope beyond the handler call. Whatever the context installs as its
+// current envelope must therefore be a value nobody writes again: the envelope it was handed, or one allocated for this
+// message. Installing the address of a per-context cell that is refilled for every message ("avoid one allocation per
+// trigger") makes every stashed envelope alias that cell: Unstash then yields the latest message N times.
+func c02EnvelopeFresh(p *Program, r *Report) {
+	lc := lcOrFail(p, r)
+	if lc == nil {
+		return
+	}
+	if lc.EnvelopF == nil {
+		r.Unresolved("current-envelope field of the context")
+		return
+	}
+	n := 0
+	for _, a := range p.fieldAccesses(map[*types.Var]bool{lc.EnvelopF: true}) {
+		st, ok := a.In.(*ssa.Store)
+		if !ok || a.Fresh {
+			continue
+		}
+		n++
+		v := st.Val
+		for {
+			if mi, isMI := v.(*ssa.MakeInterface); isMI {
+				v = mi.X
+				continue
+			}
+			break
+		}
+		good := false
+		why := strings.Join(p.origins(st.Val), " | ")
+		switch x := strip(v).(type) {
+		case *ssa.Parameter:
+			good = true
+		case *ssa.Alloc:
+			good = x.Heap || true
+		default:
+			good = p.freshValue(v, 0)
+		}
+		if _, isFA := v.(*ssa.FieldAddr); isFA {
+			good = false
+		}
+		r.Check(good, "current envelope installed in "+fnName(a.Fn), st.Pos(), "the value stored as the context's current envelope is the handler's parameter or a fresh allocation ("+why+"), never the address of storage that is written again for a later message")
+	}
+	if n == 0 {
+		r.Unresolved("no store to the current-envelope field")
 	}
 }
